@@ -607,10 +607,11 @@ func render(r *rand.Rand, lexs []lexeme, seps [][]sepEl) layout {
 			p := w.mark(exp[0], lx.class(), i)
 			w.writeString(r, lx.parts, lo.counts)
 			p.endOff = w.sb.Len()
-			if len(lx.parts) == 1 {
+			if w.line == p.line {
+				// a string token that lies on one line (one part or several): end = start + length
 				p.checkEnd = true
-				p.blen = len(lx.parts[0]) + 2
-				p.rlen = utf8.RuneCountInString(lx.parts[0]) + 2
+				p.blen = p.endOff - p.off
+				p.rlen = w.rcol - p.rcol
 			}
 			lo.toks = append(lo.toks, p)
 		case kPStr:
@@ -624,10 +625,10 @@ func render(r *rand.Rand, lexs []lexeme, seps [][]sepEl) layout {
 			q := w.mark(exp[1], "string-prefixed", i)
 			w.writeString(r, lx.parts, lo.counts)
 			q.endOff = w.sb.Len()
-			if len(lx.parts) == 1 {
+			if w.line == q.line {
 				q.checkEnd = true
-				q.blen = len(lx.parts[0]) + 2
-				q.rlen = utf8.RuneCountInString(lx.parts[0]) + 2
+				q.blen = q.endOff - q.off
+				q.rlen = w.rcol - q.rcol
 			}
 			lo.toks = append(lo.toks, q)
 		default:
@@ -1062,7 +1063,7 @@ func collapseCase(k *h.Case) {
 				lo.toks[i].class = "string-with-line-break"
 			}
 		}
-		if _, ok := checkLayout(k, lo, checkOpts{positions: false}); !ok {
+		if _, ok := checkLayout(k, lo, checkOpts{positions: true}); !ok {
 			return
 		}
 		k.Nontrivial("collapse", classSig(lexs), strings.Join(lo.sepSig, "|"))
